@@ -92,9 +92,10 @@ TRUSTED_BASE = [
     'pyvc (own VC generator: /verif/pyvc) — mitigated by canaries and native replay of counter-models',
     'z3 5.1.0 (python3-vt)',
     'NumPy model of pyvc/npmodel.py (element-wise ops, masks, views, reductions)',
+    'SymPy 1.14 polynomial normalisation (expand / together) where an obligation names the identity back end (C15 / C16 interpolation kernels); every divisor is shown non-zero by z3',
 ]
 ASSUMPTIONS = [
-    'A1 Python int and NumPy integer arrays = mathematical integers (no int64 overflow / unsigned wrap)',
+    'A1 Python int and NumPy integer arrays = mathematical integers (no int64 overflow / unsigned wrap); the dtype of a real-valued array is NOT modelled (integer-dtype inputs are exercised by bounded tiers / native samplers where users can supply them)',
     'A2 float/float64 = real numbers (no round-off) unless the contract runs in IEEE mode',
     'A4 no aliasing between distinct array parameters unless the contract states it',
     'A5 single process (no MPI), no threads; dict iteration = insertion order',
